@@ -22,6 +22,8 @@ EXPLANATION = (
     "(O12.4) both io.open calls for delimited text pass newline='' so that embedded line breaks survive. The csv "
     "module's own quoting and escaping algorithm is not decided (round-trip equality is a runtime relation)."
     " Added in rounds 6 and 7: (O12.3) an accepted configuration's item delimiter exists in the declared encoding."
+    " Added in rounds 8 and 9: (O12.3) item delimiter, quote and escape character survive encode().decode() in the"
+    " declared encoding. (O12.8) a row writer given a path closes the file it opened."
 )
 ASSUMPTIONS = ["the csv module writes and reads consistently for a dialect without contradictory roles"]
 
